@@ -10,12 +10,18 @@
 //	    -> ok 1   (by construction; the model must accept the trace and predict the slots)
 //	lang k=<n> limit=<n> trace=<..>                          (synthetic trace)
 //	    -> ok <0|1>  by an independent characterisation of the legal observable behaviours
+//	race ensemble                                            (thorough tier, only when a -race build works)
+//	    -> ok norace   supporting evidence, not proof: this binary rebuilt with -race runs the real
+//	       ensemble (several targets, limits, GOMAXPROCS values) and the controlled schedules
 package main
 
 import (
 	"fmt"
 	"log"
 	"math/big"
+	"os"
+	osexec "os/exec"
+	"path/filepath"
 	"reflect"
 	"runtime"
 	"strings"
@@ -25,6 +31,7 @@ import (
 
 	"github.com/mmcloughlin/addchain"
 	"github.com/mmcloughlin/addchain/alg"
+	"github.com/mmcloughlin/addchain/alg/ensemble"
 	"github.com/mmcloughlin/addchain/alg/exec"
 	"verif/harness/lib"
 )
@@ -37,7 +44,7 @@ var expiries int32
 
 func patient() time.Duration {
 	if atomic.LoadInt32(&expiries) >= 3 {
-		return time.Second
+		return 200 * time.Millisecond
 	}
 	return 30 * time.Second
 }
@@ -322,7 +329,7 @@ func scenario(k, limit int, strategy string) (o obs) {
 		case <-finished:
 			return true
 		case <-time.After(d):
-			if d > time.Second/2 {
+			if d >= 200*time.Millisecond {
 				atomic.AddInt32(&expiries, 1)
 			}
 			return false
@@ -569,6 +576,8 @@ func run(c string) string {
 	case "accepts":
 		// an observed behaviour of the implementation: legal by construction
 		return "ok 1"
+	case "race":
+		return raceRun()
 	case "lang":
 		return "ok " + lib.Bool(legal(lib.Atoi(field(f[1], "k")), lib.Atoi(field(f[2], "limit")), splitTrace(field(f[3], "trace"))))
 	}
@@ -627,6 +636,10 @@ func oracle(c, res string) string {
 		}
 		bad = append(bad, o.notes...)
 		return strings.Join(bad, "; ")
+	case "race":
+		if res != "ok norace" {
+			return "race detector run failed: " + raceLog
+		}
 	case "accepts":
 		k, limit := lib.Atoi(field(f[1], "k")), lib.Atoi(field(f[2], "limit"))
 		tr := splitTrace(field(f[3], "trace"))
@@ -673,6 +686,9 @@ func gen(tier string, r *lib.Rand, emit func(string)) {
 	}
 	var observed []obs
 	do := func(k, limit int, strategy string) {
+		if atomic.LoadInt32(&expiries) >= 8 {
+			return // the implementation deadlocks; the cases already emitted report it
+		}
 		c := fmt.Sprintf("parallel k=%d limit=%d strategy=%s", k, limit, strategy)
 		o := observe(c)
 		emit(c)
@@ -706,6 +722,10 @@ func gen(tier string, r *lib.Rand, emit func(string)) {
 				do(k, limit, fmt.Sprintf("free:%d", rep))
 			}
 		}
+	}
+	// supporting: the same binary under the race detector (thorough tier, when cgo is available)
+	if tier == "thorough" && raceBuild() == nil {
+		emit("race ensemble")
 	}
 	// synthetic traces: the acceptor against the independent characterisation, negatives included
 	for k := 0; k <= langk; k++ {
@@ -756,7 +776,138 @@ func gen(tier string, r *lib.Rand, emit func(string)) {
 	}
 }
 
+// ---- race detector (supporting evidence) ----
+
+var (
+	raceLog  string
+	raceExe  string
+	raceOnce sync.Once
+	raceErr  error
+)
+
+// raceBuild rebuilds this command with -race (needs cgo; bin/check builds the normal harness
+// with CGO_ENABLED=0). A failure means "not available here", never a verdict.
+func raceBuild() error {
+	raceOnce.Do(func() {
+		root := os.Getenv("VERIF_ROOT")
+		if root == "" {
+			raceErr = fmt.Errorf("VERIF_ROOT not set")
+			return
+		}
+		dir := os.Getenv("VERIF_BUILD")
+		args := []string{"build", "-race", "-tags", "verif"}
+		if dir != "" {
+			args = append(args, "-modfile="+filepath.Join(dir, "go.mod"))
+		} else {
+			dir = os.TempDir()
+		}
+		raceExe = filepath.Join(dir, "harness-race")
+		args = append(args, "-o", raceExe, "./cmd/c12")
+		cmd := osexec.Command("go", args...)
+		cmd.Dir = filepath.Join(root, "harness")
+		cmd.Env = append(os.Environ(), "CGO_ENABLED=1")
+		out, err := cmd.CombinedOutput()
+		if err != nil {
+			raceErr = fmt.Errorf("go build -race failed: %v: %s", err, out)
+		}
+	})
+	return raceErr
+}
+
+func raceRun() string {
+	if err := raceBuild(); err != nil {
+		raceLog = err.Error()
+		return "err unavailable"
+	}
+	cmd := osexec.Command(raceExe, "racecheck")
+	cmd.Env = append(os.Environ(), "GORACE=halt_on_error=1 exitcode=66")
+	out, err := cmd.CombinedOutput()
+	tail := string(out)
+	if len(tail) > 1500 {
+		tail = tail[len(tail)-1500:]
+	}
+	raceLog = tail
+	if err == nil {
+		return "ok norace"
+	}
+	if ee, ok := err.(*osexec.ExitError); ok && ee.ExitCode() == 66 {
+		return "err race"
+	}
+	return "err racecheck"
+}
+
+// racecheck is what the -race build executes: real ensemble runs compared with sequential
+// execution, and a set of controlled schedules. Exit 66 = data race (GORACE), 1 = wrong result.
+func racecheck() {
+	targets := []*big.Int{
+		big.NewInt(1000000007),
+		new(big.Int).Sub(new(big.Int).Lsh(big.NewInt(1), 127), big.NewInt(1)),
+		new(big.Int).Sub(new(big.Int).Lsh(big.NewInt(1), 255), big.NewInt(19)),
+	}
+	as := ensemble.Ensemble()
+	fail := false
+	for gi, procs := range []int{1, 4, runtime.NumCPU()} {
+		runtime.GOMAXPROCS(procs)
+		for ti, n := range targets {
+			if ti == 2 && gi == 0 {
+				continue // the 255-bit target is slow under the race detector
+			}
+			n0 := new(big.Int).Set(n)
+			seq := make([]exec.Result, len(as))
+			for i, a := range as {
+				seq[i] = exec.Execute(n, a)
+			}
+			for _, limit := range []int{1, 3, len(as) + 2} {
+				if ti == 2 && limit == 1 {
+					continue
+				}
+				p := exec.NewParallel()
+				p.SetConcurrency(limit)
+				rs := p.Execute(n, as)
+				for i := range as {
+					if len(rs) != len(as) || rs[i].Algorithm != as[i] || rs[i].Target != n ||
+						chainKey(rs[i].Chain) != chainKey(seq[i].Chain) || !reflect.DeepEqual(rs[i].Program, seq[i].Program) ||
+						(rs[i].Err == nil) != (seq[i].Err == nil) {
+						fmt.Printf("ensemble target %x limit %d GOMAXPROCS %d: slot %d differs from sequential execution\n", n, limit, procs, i)
+						fail = true
+					}
+				}
+			}
+			if n.Cmp(n0) != 0 {
+				fmt.Printf("ensemble modified the target %x\n", n0)
+				fail = true
+			}
+		}
+		for k := 1; k <= 4; k++ {
+			for limit := 1; limit <= k+1; limit++ {
+				for _, pm := range perms(k) {
+					o := scenario(k, limit, "perm:"+lib.IntList(pm))
+					if o.resultLine() != fmt.Sprintf("ok slots=%s sat=%d early=0 over=0", identitySlots(k), min(k, limit)) || len(o.notes) > 0 {
+						fmt.Printf("controlled run k=%d limit=%d perm=%v: %s %v\n", k, limit, pm, o.resultLine(), o.notes)
+						fail = true
+					}
+				}
+			}
+		}
+	}
+	if fail {
+		os.Exit(1)
+	}
+	fmt.Println("racecheck: no race, all results equal to sequential execution")
+}
+
+func min(a, b int) int {
+	if a < b {
+		return a
+	}
+	return b
+}
+
 func main() {
+	if len(os.Args) > 1 && os.Args[1] == "racecheck" {
+		racecheck()
+		return
+	}
 	lib.Main(lib.Prop{
 		ID:     "C12",
 		Gen:    gen,
@@ -771,6 +922,8 @@ func main() {
 				return lib.Atoi(field(f[1], "k")) >= 2
 			case "lang":
 				return res == "ok 1"
+			case "race":
+				return res == "ok norace"
 			}
 			return false
 		},
